@@ -364,9 +364,48 @@ def run(repo: Repo, ctx) -> None:
                         tx = _il(f.node, tm)
                     except Exception:
                         tx = norm(tm)
-                    if tx.replace('(', '').replace(')', '') == \
+                    if tx.replace('(', '').replace(')', '') != \
                             'self._max_capacity - self._cur_capacity':
-                        room = True
+                        continue
+                    if isinstance(tm, ast.Name):
+                        # the free room was read into a local: that read
+                        # has to precede the loop with no change of the
+                        # capacity in between (a value read once before a
+                        # scan over several blocks is stale from the second
+                        # block on)
+                        defs_ = [a_.id for a_ in g.nodes
+                                 if a_.kind == 'stmt' and isinstance(
+                                     a_.ast, ast.Assign) and len(
+                                     a_.ast.targets) == 1 and norm(
+                                     a_.ast.targets[0]) == tm.id]
+                        if len(defs_) != 1 or not g.always_before(
+                                lp.id, defs_) or _cap_written_between(
+                                pm, f, g, defs_[0], lp.id) or \
+                                not _seg_clear(g, defs_[0], lp.id):
+                            continue
+                        # ... and it is read afresh every time the loop is
+                        # entered: the assignment sits in the same statement
+                        # list as the loop, with nothing but call-free
+                        # statements in between
+                        fresh = False
+                        dnode = g.nodes[defs_[0]].ast
+                        for owner in ast.walk(f.node):
+                            for fld in ('body', 'orelse', 'finalbody'):
+                                blk_ = getattr(owner, fld, None)
+                                if isinstance(blk_, list) and any(
+                                        x is lp.ast for x in blk_) and any(
+                                        x is dnode for x in blk_):
+                                    i0 = next(k for k, x in enumerate(blk_)
+                                              if x is dnode)
+                                    i1 = next(k for k, x in enumerate(blk_)
+                                              if x is lp.ast)
+                                    fresh = i0 < i1 and not any(
+                                        isinstance(y, (ast.Call, ast.Await))
+                                        for x in blk_[i0 + 1:i1]
+                                        for y in ast.walk(x))
+                        if not fresh:
+                            continue
+                    room = True
                 if room and len(openers_in_body) == 1 and len(
                         lp.ast.body) == 1 and _seg_clear(g, lp.id, nid):
                     guard = (f'loop L{lp.lineno}: at most max - cur '
